@@ -1,13 +1,3 @@
 import GqlProofs.Props.C03
-import GqlProofs.Parser.Run
-import GqlProofs.Parser.Limit
-import GqlProofs.Parser.Pulls
-import GqlProofs.Parser.LimitErr
-import GqlProofs.Parser.Results
 import GqlProofs.Props.C16
-import GqlProofs.Parser.LexProgress
-import GqlProofs.Parser.Measure
-import GqlProofs.Parser.Fuel
-import GqlProofs.Parser.FuelQuery
-import GqlProofs.Parser.FuelSchema
 import GqlProofs.Props.C01
